@@ -100,10 +100,10 @@ fn apply_all(inst: &mut Inst, ups: &[MMember], chunked: bool, bcast: bool) -> bo
 /// C01: order / multiplicity independence, re-applying own state, pairwise exchange
 pub fn c01(seed: u64, budget: u64) -> FOut {
     let mut out = FOut::default();
-    out.rule = "random update multisets over 4 addresses x 4 generations x incarnations {0,1,2,MAX-1,MAX} x 3 states (plus other identities of the instance's own address), sizes 1..10; each applied in 6 random permutations with random duplications through the real apply_many (whole list or one by one); views compared as address maps modulo the incarnation next to Down; then re-apply own state; then exchange between two instances. distinct = distinct sorted multisets with at least two updates on one address".into();
+    out.rule = "random update multisets over 4 addresses x 4 generations x incarnations {0,1,2,3,255,256,2^15-1,2^15,2^15+1,2^15+2,MAX-1,MAX, random u16} x 3 states (plus other identities of the instance's own address), sizes 1..10; each applied in 6 random permutations with random duplications through the real apply_many (whole list or one by one); views compared as address maps modulo the incarnation next to Down; then re-apply own state; then exchange between two instances. distinct = distinct sorted multisets with at least two updates on one address".into();
     let mut g = G::new(seed ^ 0xC01);
     let own = VId::new(9, 1, 0, 0);
-    let incs = [0u16, 1, 2, 65534, 65535];
+    let incs = [0u16, 1, 2, 3, 255, 256, 32767, 32768, 32769, 32770, 65534, 65535];
     for run in 0..budget {
         let n = 1 + g.below(10) as usize;
         let mut ups: Vec<MMember> = (0..n)
@@ -113,7 +113,8 @@ pub fn c01(seed: u64, budget: u64) -> FOut {
                 if id == own {
                     id.g = 0;
                 }
-                MMember { id, inc: *g.pick(&incs), state: g.below(3) as u8 }
+                let inc = if g.chance(15) { g.below(65536) as u16 } else { *g.pick(&incs) };
+                MMember { id, inc, state: g.below(3) as u8 }
             })
             .collect();
         let mut sorted = ups.clone();
@@ -236,9 +237,13 @@ pub fn history(
     let mut inst = Inst::new(id, &cfg, g.next(), g.below(4) as u8, g.below(256) as u8);
     let mut pending: Vec<(u128, MTimer)> = vec![];
     let mut now: u128 = 0;
-    for _ in 0..steps {
+    let (pk, plen) = pick_prelude(&mut g);
+    for stepno in 0..steps + plen {
         let pre = inst.snapshot();
-        let input = gen_input(&mut g, &pre, &mut pending, &cfg);
+        let input = match prelude_input(pk, stepno, plen, &pre) {
+            Some(i) => i,
+            None => gen_input(&mut g, &pre, &mut pending, &cfg),
+        };
         if let Input::Timer(_) = &input {
             now += 50 * MS;
         }
@@ -352,9 +357,12 @@ pub fn c06(seed: u64, budget: u64) -> FOut {
         let id = VId { a: 9, g: 1 + g.below(2) as u16, k: g.below(4) as u8, pad: 0 };
         let mut inst = Inst::new(id, &cfg, g.next(), g.below(4) as u8, g.below(256) as u8);
         let mut pending: Vec<(u128, MTimer)> = vec![];
-        for _ in 0..400 {
+        let (pk, plen) = pick_prelude(&mut g2);
+        for stepno in 0..400 + plen {
             let pre = inst.snapshot();
-            let input = if g2.chance(25) {
+            let input = if let Some(i) = prelude_input(pk, stepno, plen, &pre) {
+                i
+            } else if g2.chance(25) {
                 match g2.below(4) {
                     0 => Input::Data((0..g2.below(2 * pre.cfg.max_packet_size.min(200) as u64 + 2)).map(|_| g2.below(256) as u8).collect()),
                     1 => {
@@ -430,11 +438,110 @@ pub fn c06(seed: u64, budget: u64) -> FOut {
     out
 }
 
+/// C11: suspicion timeout takes effect iff unrefuted; Down final until forgotten
+pub fn c11(seed: u64, budget: u64) -> FOut {
+    let mut out = FOut::default();
+    out.rule = "exhaustive case table on the real crate: stored record {absent, Alive, Suspect, Down} x stored incarnation vs timer incarnation {<,=,>} x timer identity generation {older, same} vs stored x token {current, stale} x notify_down_members {on,off} x duplicate delivery, with a second active member keeping the instance connected; expected: effect iff token current, same identity, same incarnation, record active; otherwise no effect at all. Then random histories checking that a Down identity never becomes active again before its RemoveDown fires (or a newer identity supersedes it). distinct = distinct table rows + histories with at least one Down record".into();
+    let own = VId::new(9, 1, 0, 0);
+    let other = VId::new(2, 0, 0, 0);
+    for notify in [false, true] {
+        for stored in 0..4u8 {
+            // 0 absent, 1 alive, 2 suspect, 3 down
+            for (sinc, tinc) in [(5u16, 4u16), (5, 5), (5, 6), (0, 0), (65535, 65535)] {
+                for tgen in [0u16, 1] {
+                    for stale in [false, true] {
+                        let mut cfg = big_cfg();
+                        cfg.notify_down_members = notify;
+                        let mut inst = Inst::new(own, &cfg, seed, 0, 255);
+                        let x_stored = VId::new(1, 1, 0, 0);
+                        let x_timer = VId::new(1, tgen, 0, 0);
+                        let mut ups = vec![MMember { id: other, inc: 0, state: 0 }];
+                        if stored > 0 {
+                            ups.push(MMember { id: x_stored, inc: sinc, state: stored - 1 });
+                        }
+                        run_real(&mut inst.foca, &Input::ApplyMany(ups, false));
+                        let pre = inst.snapshot();
+                        let tok = if stale { (pre.token + 1) & 255 } else { pre.token };
+                        let input = Input::Timer(MTimer::SuspectToDown(x_timer, tinc as u128, tok));
+                        let (effs, o) = run_real(&mut inst.foca, &input);
+                        let post = inst.snapshot();
+                        out.runs += 1;
+                        out.distinct.insert(hash_of(&(notify, stored, sinc, tinc, tgen, stale)));
+                        let should = !stale && (stored == 1 || stored == 2) && x_timer == x_stored && sinc == tinc;
+                        let row = format!("notify={notify} stored={stored} stored_inc={sinc} timer_inc={tinc} timer_gen={tgen} stale={stale}");
+                        if o != Outcome::Done {
+                            out.hit("C11:timer-error", J::s(row.clone()));
+                        }
+                        if should {
+                            let down_now = post.members.iter().any(|m| m.id == x_stored && m.state == 2 && m.inc == sinc);
+                            let notified = effs.contains(&Eff::Notify(MNote::Down(x_stored)));
+                            let forget = effs.iter().any(|e| matches!(e, Eff::Submit(MTimer::RemoveDown(i), d) if *i == x_stored && *d == cfg.remove_down_after));
+                            let tu = effs.iter().filter(|e| matches!(e, Eff::Send(d, b) if *d == x_stored && split_datagram(b).map(|x| x.0.message == foca::Message::TurnUndead).unwrap_or(false))).count();
+                            let gossiped = post.updates.iter().any(|(tx, a, d)| *a == 1 && *tx == cfg.max_transmissions && dec_member(&mut &d[..]).map(|m| m.state() == foca::State::Down && *m.id() == x_stored).unwrap_or(false));
+                            if !(down_now && notified && forget && gossiped && tu == notify as usize) {
+                                out.hit("C11:effective-timeout-incomplete", J::obj(vec![("row", J::s(row)), ("effects", J::s(format!("{effs:?}")))]));
+                            }
+                        } else if !effs.is_empty() || post != pre {
+                            out.hit(
+                                "C11:cancelled-timeout-has-effect",
+                                J::obj(vec![("row", J::s(row)), ("effects", J::s(format!("{effs:?}"))), ("state_changed", J::B(post != pre))]),
+                            );
+                        }
+                        if out.samples.len() < 2 {
+                            out.samples.push(J::s(format!("{input:?} on {:?}", pre.members)));
+                        }
+                    }
+                }
+            }
+        }
+    }
+    // Down is final until forgotten
+    for h in 0..budget {
+        let mut down: std::collections::HashMap<VId, ()> = Default::default();
+        let mut bad: Option<J> = None;
+        let mut any = false;
+        history(seed.wrapping_mul(31337).wrapping_add(h), 300, |_, _| {}, |pre, input, _effs, _o, post, _r| {
+            for m in &pre.members {
+                if m.state == 2 {
+                    down.insert(m.id, ());
+                    any = true;
+                }
+            }
+            // forgetting: RemoveDown for exactly that identity, or superseded by a newer identity of that address
+            for (id, _) in down.clone() {
+                let now = post.members.iter().find(|m| m.id.a == id.a);
+                match now {
+                    Some(m) if m.id == id && m.state != 2 => {
+                        bad = Some(J::obj(vec![("identity", J::s(format!("{id:?}"))), ("input", J::s(format!("{input:?}")))]));
+                    }
+                    Some(m) if m.id == id => {}
+                    _ => {
+                        down.remove(&id);
+                    }
+                }
+                if now.is_none() && !matches!(input, Input::Timer(MTimer::RemoveDown(i)) if *i == id) {
+                    bad = Some(J::obj(vec![("removed_without_forget_timer", J::s(format!("{id:?}"))), ("input", J::s(format!("{input:?}")))]));
+                }
+            }
+            bad.is_none()
+        });
+        out.runs += 1;
+        if any {
+            out.distinct.insert(h);
+        }
+        if let Some(b) = bad {
+            out.hit("C11:down-not-final", b);
+        }
+    }
+    out
+}
+
 pub fn run(prop: &str, seed: u64, budget: u64) -> Option<FOut> {
     match prop {
         "C01" => Some(c01(seed, budget)),
         "C19" => Some(c19(seed, budget)),
         "C06" => Some(c06(seed, budget)),
+        "C11" => Some(c11(seed, budget)),
         _ => None,
     }
 }
